@@ -16,6 +16,8 @@ pub enum Call {
     WordMatch { rword: String, qword: String, fin: bool },
     /// store of `titles`, then the queries in order (thread-local matcher instances grow)
     Search { lang: &'static str, titles: Vec<String>, limit: usize, queries: Vec<String>, clear_after: Option<usize> },
+    /// through the registry: create, fill, search, destroy the (last) store, create again, search
+    Registry { lang: &'static str, titles: Vec<String>, first: Vec<String>, second_titles: Vec<String>, second: Vec<String> },
 }
 
 #[derive(Clone, Debug, Hash)]
@@ -24,6 +26,10 @@ pub struct C19Case {
 }
 
 fn gen_len19(src: &mut Source) -> usize {
+    if src.chance(1, 150) {
+        // the sizes where a capped or rounded buffer dimension would sit
+        return *src.pick(&[255usize, 256, 257, 510, 511, 512, 513, 514]);
+    }
     match src.weighted(&[6, 4, 3, 2, 1]) {
         0 => src.range(0, 8),
         1 => src.range(17, 24),
@@ -56,7 +62,17 @@ pub fn decode(src: &mut Source) -> Box<dyn Case> {
     let mut calls = Vec::new();
     while calls.len() < 8 && (calls.is_empty() || src.chance(4, 5)) {
         let lang = if src.chance(1, 4) { "ru" } else { "en" };
-        match src.weighted(&[3, 2, 3, 2]) {
+        match src.weighted(&[6, 4, 6, 4, 1]) {
+            4 => {
+                let lang = gen_lang(src);
+                let mk = |src: &mut Source| -> Vec<String> { (0..src.range(1, 4)).map(|_| { let a = gen_w(src, lang); let b = gen_w(src, lang); format!("{} {}", a, b) }).collect() };
+                let titles = mk(src);
+                let second_titles = mk(src);
+                let q = |src: &mut Source, ts: &Vec<String>| -> Vec<String> { (0..src.range(1, 3)).map(|_| { let t = src.pick(ts).clone(); let w = t.split(' ').next().unwrap_or("").to_string(); near(src, lang, &w) }).collect() };
+                let first = q(src, &titles);
+                let second = q(src, &second_titles);
+                calls.push(Call::Registry { lang, titles, first, second_titles, second });
+            }
             0 => {
                 let a = gen_w(src, lang);
                 let b = if src.chance(1, 2) { near(src, lang, &a) } else { gen_w(src, lang) };
@@ -122,6 +138,7 @@ impl Case for C19Case {
             Call::Distance(a, b) => json!({"distance": [a, b], "lens": [a.chars().count(), b.chars().count()]}),
             Call::Similarity(a, b) => json!({"similarity": [a, b], "lens": [a.chars().count(), b.chars().count()]}),
             Call::WordMatch { rword, qword, fin } => json!({"word_match": {"record": rword, "query": qword, "query_finished": fin}}),
+            Call::Registry { lang, titles, first, second_titles, second } => json!({"registry": {"lang": lang, "create+add": titles, "run_search": first, "destroy_then_create+add": second_titles, "run_search_again": second}}),
             Call::Search { lang, titles, limit, queries, clear_after } => json!({"search": {"lang": lang, "clear_store_after_query": clear_after, "records": titles.len(), "first_titles": titles.iter().take(4).collect::<Vec<_>>(), "limit": limit, "queries": queries}}),
         }).collect::<Vec<_>>()})
     }
@@ -138,6 +155,7 @@ impl Case for C19Case {
             let this_len = match call {
                 Call::Distance(a, b) | Call::Similarity(a, b) => len_of(a).max(len_of(b)),
                 Call::WordMatch { rword, qword, .. } => len_of(rword).max(len_of(qword)),
+                Call::Registry { titles, first, second_titles, second, .. } => titles.iter().chain(first.iter()).chain(second_titles.iter()).chain(second.iter()).flat_map(|t| t.split(|c: char| !c.is_alphanumeric())).map(len_of).max().unwrap_or(0),
                 Call::Search { titles, queries, .. } => titles.iter().chain(queries.iter()).flat_map(|t| t.split(|c: char| !c.is_alphanumeric())).map(len_of).max().unwrap_or(0),
             };
             clear_panic();
@@ -158,6 +176,25 @@ impl Case for C19Case {
                     let tr = Text::from_str(rword).set_char_classes(&en);
                     let tq = Text::from_str(qword).set_char_classes(&en).fin(*fin);
                     word_match(&tr.view(0), &tq.view(0));
+                }
+                Call::Registry { lang, titles, first, second_titles, second } => {
+                    // this case runs in its own thread: store 1 is the only store of the registry
+                    lucid_suggest_core::create_store(1, lang_of(lang));
+                    for (i, t) in titles.iter().enumerate() {
+                        lucid_suggest_core::add_record(1, i + 1, t, i);
+                    }
+                    for q in first {
+                        lucid_suggest_core::run_search(1, q);
+                    }
+                    lucid_suggest_core::destroy_store(1);
+                    lucid_suggest_core::create_store(1, lang_of(lang));
+                    for (i, t) in second_titles.iter().enumerate() {
+                        lucid_suggest_core::add_record(1, i + 1, t, i);
+                    }
+                    for q in second {
+                        lucid_suggest_core::run_search(1, q);
+                    }
+                    lucid_suggest_core::destroy_store(1);
                 }
                 Call::Search { lang, titles, limit, queries, clear_after } => {
                     let recs: Vec<Rec> = titles.iter().enumerate().map(|(i, t)| (i + 1, t.clone(), i % 7)).collect();
